@@ -16,15 +16,35 @@
 (*   ScrollToTx, filter toggles, tail toggle) from every reachable cursor     *)
 (*   position.  Invariants: FilterSound, FwdBackIdentity, cursor range.       *)
 (*   With Emit the explored command sequences are printed (B2: the Go driver  *)
-(*   replays them on the real debugger).                                      *)
+(*   replays them on the real debugger).  The tool "scrollid" adds jumps by   *)
+(*   transition id for EVERY id of the stream, also the ones whose record has *)
+(*   not been ingested yet (refused, asked again after the ingestion).        *)
+(*                                                                            *)
+(* Model = "lookup": a store that GROWS between look-ups: Ingest steps        *)
+(*   interleaved with at most MaxCmds TxIndex look-ups of every id (held,     *)
+(*   still to come, never coming) and ClearCache; the per-client cache is a   *)
+(*   variable.  Invariants: every answer equals the scan over the ids held at *)
+(*   that moment, every cached answer stays the scan's answer, the stateless  *)
+(*   look-ups equal their scans after every growth.  With CacheMisses (not    *)
+(*   the code) the first formula must FAIL (sensitivity).                     *)
+(*                                                                            *)
+(* Model = "filter": streams of records of EVERY kind -- auto x queued x      *)
+(*   canceled x check, plus empty and health transitions; a non-queued auto   *)
+(*   record executes the latest queued auto mutation (accepted or canceled),  *)
+(*   a non-queued manual one the pending queued manual mutation.  Invariant:  *)
+(*   for EVERY set of filter states the transcription of hFilterTx (the       *)
+(*   else-if chain followed by independent ifs) shows a record iff no active  *)
+(*   filter names one of its features, judged on every prefix of the stream.  *)
 EXTENDS Debugger, Json
 
 CONSTANTS Model, NStates, MaxRecs, Deltas, NonMono, MaxCmds, Kinds, Tools, Emit, InitF, Attack,
           ShardMod, ShardIdx
 
-VARIABLES recs, v, ncmd, hist, ok
+VARIABLES recs, v, ncmd, hist, ok,
+          txc,    \* the client's txCache: a set of <<id, index>> pairs
+          lkok    \* verdict of the last transition-id look-up
 
-mvars == <<recs, v, ncmd, hist, ok>>
+mvars == <<recs, v, ncmd, hist, ok, txc, lkok>>
 
 (* constant values (a .cfg cannot hold them) *)
 D01 == {0, 1}
@@ -37,6 +57,14 @@ ToolsCk == {"health", "checks"}
 ToolsAll == {"canceled", "queued", "auto", "empty", "health", "checks", "outgroup", "tail"}
 ToolsCore == {"auto", "health", "checks", "canceled", "tail"}
 ToolsMin == {"auto", "health", "checks"}
+(* the filters that interact on queued / auto / canceled records *)
+KindsQueue == {"tx", "qu", "qa", "aa", "ac"}
+ToolsQueue == {"auto", "queued", "canceled"}
+(* ... together with jumps by transition id on the growing store *)
+ToolsQueueId == {"auto", "queued", "canceled", "scrollid"}
+(* jumps by transition id on a growing store *)
+KindsId == {"tx", "ck"}
+ToolsId == {"checks", "scrollid"}
 NoKinds == {}
 
 (* --------------------------------------------------------------------- *)
@@ -66,7 +94,7 @@ DeriveNext ==
         reset \in (IF NonMono THEN BOOLEAN ELSE {FALSE}) :
         /\ (IF Len(recs) = 0 THEN TRUE ELSE Last(recs).qt + qstep >= 0)
         /\ recs' = Append(recs, DRec(recs, dv, qstep, reset))
-  /\ UNCHANGED <<v, ncmd, hist, ok>>
+  /\ UNCHANGED <<v, ncmd, hist, ok, txc, lkok>>
 
 Ing == Ingested(DSch, recs)
 Qts == [i \in 1..Len(recs) |-> recs[i].qt]
@@ -87,7 +115,7 @@ LookupEqualsScanOn(qts, sums, errors) ==
         CodeHadErrSinceTx(errors, tx, d) = ScanHadErrSinceTx(errors, tx, d)
 
 Inv_LookupEqualsScan ==
-  Model = "derive" =>
+  Model \in {"derive", "lookup"} =>
      ((Monotone(Qts) /\ Monotone(Sums)) => LookupEqualsScanOn(Qts, Sums, Ing.errors))
 
 (* expected to be VIOLATED with NonMono: the look-ups are scans only on monotone input *)
@@ -97,6 +125,30 @@ Inv_LookupEqualsScanAlways ==
 (* a real stream is monotone; the model builds only such streams unless NonMono *)
 Inv_ModelMonotone ==
   (Model = "derive" /\ ~NonMono) => (Monotone(Qts) /\ Monotone(Sums) /\ TicksMonotone(recs))
+
+(* --------------------------------------------------------------------- *)
+(* lookup model: the store grows between two look-ups of the same key      *)
+
+LookupNext ==
+  \/ /\ Len(recs) < MaxRecs
+     /\ \E d \in {0, 1}, qstep \in {0, 1} :
+          recs' = Append(recs, DRec(recs, [i \in 0..(NStates - 1) |-> IF i = 0 THEN d ELSE 0], qstep, FALSE))
+     /\ UNCHANGED <<v, ncmd, hist, ok, txc, lkok>>
+  \/ /\ ncmd < MaxCmds
+     \* ids 0..Len(recs)-1 are held, the ones up to MaxRecs-1 may still come, MaxRecs never does
+     /\ \E id \in 0..MaxRecs :
+          LET r == CodeTxIndex(txc, Ids, id)
+          IN  /\ txc' = r.cache
+              /\ lkok' = (r.res = ScanTxIndex(Ids, id))
+     /\ ncmd' = ncmd + 1
+     /\ UNCHANGED <<recs, v, hist, ok>>
+  \/ \* Client.ClearCache (the GC handler)
+     /\ txc # {}
+     /\ txc' = {}
+     /\ UNCHANGED <<recs, v, ncmd, hist, ok, lkok>>
+
+Inv_TxIndexEqualsScan == lkok
+Inv_CacheSound == CacheSound(txc, IF Model = "cursor" THEN [i \in 1..Len(recs) |-> recs[i].id] ELSE Ids)
 
 (* --------------------------------------------------------------------- *)
 (* cursor model                                                            *)
@@ -126,12 +178,59 @@ KRec(kind, rs) ==
         [] kind = "he" -> [b EXCEPT !.qt = QtNow(rs) + 1, !.diff = 1, !.called = <<2>>]
 
 Diffs(rs) == [i \in 1..Len(rs) |-> rs[i].diff]
+CIds(rs) == [i \in 1..Len(rs) |-> rs[i].id]
+
+(* --------------------------------------------------------------------- *)
+(* filter model: every kind of record x every set of filter states         *)
+
+(* a record from its flags; var: "" / "em" (changes no tick) / "he" (calls   *)
+(* Healthcheck).  Linking as a machine does it: a queued auto mutation takes  *)
+(* a new token, a non-queued auto record carries the latest token (= executes *)
+(* it); a queued manual mutation names the next queue tick, a non-queued      *)
+(* manual transition (no check) advances the queue tick (= executes it).      *)
+FRec(f, rs) ==
+  LET manual == ~f.queued /\ ~f.auto /\ ~f.check
+  IN  [id |-> Len(rs), kind |-> "f", queued |-> f.queued, auto |-> f.auto, check |-> f.check,
+       acc |-> f.acc,
+       tok |-> IF f.auto THEN (IF f.queued THEN NTok(rs) + 1 ELSE NTok(rs)) ELSE 0,
+       mqt |-> IF f.queued /\ ~f.auto THEN QtNow(rs) + 1 ELSE 0,
+       qt |-> IF manual THEN QtNow(rs) + 1 ELSE QtNow(rs),
+       called |-> IF f.var = "he" THEN <<2>> ELSE IF f.auto THEN <<1>> ELSE <<0>>,
+       diff |-> IF f.acc /\ ~f.queued /\ ~f.check /\ f.var # "em" THEN 1 ELSE 0]
+FFlags ==
+  {[auto |-> a, queued |-> q, acc |-> c, check |-> k, var |-> ""] : a, q, c, k \in BOOLEAN}
+  \cup {[auto |-> FALSE, queued |-> FALSE, acc |-> TRUE, check |-> FALSE, var |-> x] : x \in {"em", "he"}}
+
+FilterNext ==
+  /\ Len(recs) < MaxRecs
+  /\ \E f \in FFlags : recs' = Append(recs, FRec(f, recs))
+  /\ UNCHANGED <<v, ncmd, hist, ok, txc, lkok>>
+
+(* the else-if chain + independent ifs = "no active filter names a feature of *)
+(* the record", for every set of filter states, every record, every prefix     *)
+Inv_FilterTxEqualsPass ==
+  Model = "filter" =>
+     \A F \in SUBSET FilterNames : \A idx \in 0..(Len(recs) - 1) : \A upto \in (idx + 1)..Len(recs) :
+        CodeFilterTx(F, CSch, recs, Diffs(recs), upto, idx) = FilterPass(F, CSch, recs, Diffs(recs), upto, idx)
+(* ... and the re-filtered view is sound and complete for every set of filters *)
+Inv_RefilteredExact ==
+  Model = "filter" =>
+     \A F \in SUBSET FilterNames :
+        LET fl == Refiltered(F, CSch, recs, Diffs(recs))
+            w == [cursor |-> 0, tail |-> FALSE, F |-> F, filtered |-> fl]
+        IN  /\ Ascending(fl)
+            /\ FilteredSound(w, CSch, recs, Diffs(recs))
+            /\ FilteredSoundPrefix(w, CSch, recs, Diffs(recs))
+            /\ \A i \in 0..(Len(recs) - 1) :
+                  FilterPass(F, CSch, recs, Diffs(recs), Len(recs), i) => DHas(fl, i)
 
 Cmds ==
   {[op |-> "fwd", k |-> k] : k \in 1..2} \cup {[op |-> "back", k |-> k] : k \in 1..2}
   \cup {[op |-> "scroll", k |-> k] : k \in 1..MaxRecs}
-  \cup {[op |-> "toggle", tool |-> t] : t \in Tools \ {"tail"}}
+  \cup {[op |-> "toggle", tool |-> t] : t \in Tools \ {"tail", "scrollid"}}
   \cup (IF "tail" \in Tools THEN {[op |-> "tail"]} ELSE {})
+  \* jump by the id of the k-th record of the stream, ingested already or not
+  \cup (IF "scrollid" \in Tools THEN {[op |-> "scrollid", k |-> k] : k \in 1..MaxRecs} ELSE {})
 
 CmdEnabled(c) ==
   LET n == Len(recs)
@@ -147,6 +246,8 @@ CmdApply(c) ==
         [] c.op = "scroll" -> DoScroll(v, n, c.k)
         [] c.op = "tail" -> DoTail(v, n)
         [] c.op = "toggle" -> DoToggle(v, CSch, recs, Diffs(recs), c.tool)
+        \* a refused jump (the id is not held) is a step too: TxIndex was asked
+        [] c.op = "scrollid" -> DoScrollId(v, n, txc, CIds(recs), c.k - 1).v
 
 ViewJ(w) == [cursor |-> w.cursor, tail |-> w.tail, filters |-> w.F, filtered |-> w.filtered]
 
@@ -160,7 +261,7 @@ CursorStep ==
               /\ ok' = (Selects("ingest", v, v2) => FilterSound(v2, CSch, r2, Diffs(r2)))
               /\ hist' = IF Emit THEN Append(hist, [a |-> "ingest", kind |-> kind, v |-> ViewJ(v2)])
                          ELSE hist
-     /\ UNCHANGED ncmd
+     /\ UNCHANGED <<ncmd, txc, lkok>>
   \/ /\ ncmd < MaxCmds
      /\ Len(recs) >= 1
      /\ \E c \in Cmds :
@@ -170,6 +271,11 @@ CursorStep ==
                  /\ ok' = (Selects(c.op, v, v2) => FilterSound(v2, CSch, recs, Diffs(recs)))
                  /\ hist' = IF Emit THEN Append(hist, [a |-> "cmd", cmd |-> c, v |-> ViewJ(v2)])
                             ELSE hist
+          /\ IF c.op = "scrollid"
+             THEN LET r == DoScrollId(v, Len(recs), txc, CIds(recs), c.k - 1)
+                  IN  /\ txc' = r.cache
+                      /\ lkok' = (r.res = ScanTxIndex(CIds(recs), c.k - 1) /\ JumpLands(r.v, CIds(recs), c.k - 1))
+             ELSE UNCHANGED <<txc, lkok>>
      /\ ncmd' = ncmd + 1
      /\ UNCHANGED recs
 
@@ -192,9 +298,19 @@ Inv_CursorRange ==
      /\ DRange(v.filtered) \subseteq 0..(Len(recs) - 1)
 
 (* B2 emission: every explored behaviour that ends with its last command *)
-ACode(h) == IF h.a = "ingest" THEN 1 ELSE 3 + (IF h.cmd.op = "toggle" THEN 5 ELSE 0) +
-                                          (IF "k" \in DOMAIN h.cmd THEN h.cmd.k ELSE 0)
-HCode == DSum([i \in 1..Len(hist) |-> ACode(hist[i]) * i])
+(* a hash of the behaviour that tells kinds, tools and amounts apart (the shards *)
+(* of a small model must not be empty)                                          *)
+KindSeq == <<"tx", "cx", "em", "ck", "qu", "qa", "aa", "ac", "he">>
+ToolSeq == <<"canceled", "queued", "auto", "empty", "health", "checks", "outgroup">>
+OpSeq == <<"fwd", "back", "scroll", "toggle", "tail", "scrollid">>
+SeqNo(sq, x) == CHOOSE i \in 1..Len(sq) : sq[i] = x
+ACode(h) == IF h.a = "ingest" THEN SeqNo(KindSeq, h.kind)
+            ELSE 10 + 10 * SeqNo(OpSeq, h.cmd.op)
+                 + (IF h.cmd.op = "toggle" THEN SeqNo(ToolSeq, h.cmd.tool) ELSE 0)
+                 + (IF "k" \in DOMAIN h.cmd THEN h.cmd.k ELSE 0)
+RECURSIVE HMix(_, _)
+HMix(i, acc) == IF i > Len(hist) THEN acc ELSE HMix(i + 1, (acc * 31 + ACode(hist[i])) % 1000003)
+HCode == HMix(1, 7)
 EmitInv ==
   (Emit /\ ncmd = MaxCmds /\ hist # <<>> /\ Last(hist).a = "cmd" /\ HCode % ShardMod = ShardIdx)
      => PrintT(<<"SEQ", ToJson(hist)>>)
@@ -203,7 +319,9 @@ EmitInv ==
 (* model of the code is printed (and the invariant fails): a schedule to be   *)
 (* replayed on the real debugger                                              *)
 AttackInv ==
-  IF (Attack = "FilterSound" /\ ~ok /\ NoPanic(v, Len(recs))) \/ (Attack = "NoPanic" /\ ~NoPanic(v, Len(recs)))
+  IF \/ (Attack = "FilterSound" /\ ~ok /\ NoPanic(v, Len(recs)))
+     \/ (Attack = "NoPanic" /\ ~NoPanic(v, Len(recs)))
+     \/ (Attack = "TxIndex" /\ ~lkok)
   THEN PrintT(<<"SEQ", ToJson(hist)>>) /\ FALSE
   ELSE TRUE
 
@@ -215,10 +333,15 @@ MCInit ==
   /\ ncmd = 0
   /\ hist = <<>>
   /\ ok = TRUE
+  /\ txc = {}
+  /\ lkok = TRUE
 
-MCNext == IF Model = "derive" THEN DeriveNext ELSE CursorNext
+MCNext == CASE Model = "derive" -> DeriveNext
+            [] Model = "lookup" -> LookupNext
+            [] Model = "filter" -> FilterNext
+            [] OTHER -> CursorNext
 
 MCSpec == MCInit /\ [][MCNext]_mvars
 
-MCView == <<recs, v, ncmd, hist, ok>>
+MCView == <<recs, v, ncmd, hist, ok, txc, lkok>>
 =============================================================================
